@@ -284,6 +284,7 @@ def analyse(facts, tier):
                     gf = guard_facts(fn, b, st)
                     key = (fn.name, tuple(sorted(fact_str(f_) for f_ in gf if f_[0] == 'case')))
                     bank_storers.setdefault(key, {'loc': st['loc'], 'role': False})
+                    bank_storers[key].setdefault('stores', []).append((fn, b, j, st['loc']))
                 if fld == 'is_xg_percussion' and short(callee_name(strip(ap[1]))) == 'isXgPercChannel':
                     n5 += 1
                     gf = guard_facts(fn, b, st)
@@ -295,9 +296,19 @@ def analyse(facts, tier):
                                     'the XG drum-bank test is applied in GS mode as well (or on the wrong bytes): a GS drum-part assignment is lost'))
                     key = (fn.name, tuple(sorted(fact_str(f_) for f_ in gf if f_[0] == 'case')))
                     bank_storers.setdefault(key, {'loc': st['loc'], 'role': False})['role'] = True
+                    bank_storers[key].setdefault('roles', []).append((fn, b, j))
     if n5 < 2:
         raise build.AnalysisBroken('C12.R5: XG role updates not found')
     for (fname, cases), d in sorted(bank_storers.items()):
+        # the role is a function of the bank bytes: it must be computed after the last store of them
+        late = None
+        for (f1, b1, j1, loc1) in d.get('stores', []):
+            if not any((b2 == b1 and j2 > j1) or (b2 != b1 and f1.cfg.block_dominates(b1, b2)) for (f2, b2, j2) in d.get("roles", [])):
+                late = loc1
+        if d['role'] and late:
+            obls.append(Obl('C12.R6', fname, 'bank bytes stored%s' % (' (%s)' % ','.join(cases) if cases else ''), late, 'finding',
+                            why='the percussion role is computed from the bank bytes before this store changes them: the channel keeps the role of the bank it had (a drum channel stays a drum channel on bank 0:0)'))
+            continue
         obls.append(Obl('C12.R6', fname, 'bank bytes stored%s' % (' (%s)' % ','.join(cases) if cases else ''), d['loc'], 'discharged' if d['role'] else 'finding',
-                        why='performs the XG percussion-role update' if d['role'] else 'stores the bank bytes without the role update that CC0/CC32 perform: the next note plays the wrong kind of bank'))
+                        why='performs the XG percussion-role update after the stores' if d['role'] else 'stores the bank bytes without the role update that CC0/CC32 perform: the next note plays the wrong kind of bank'))
     return obls
